@@ -64,7 +64,7 @@ func runC05(ctx *vh.Ctx) error {
 		c.CfgInitialChecked = &other
 		return gcase5.Evaluate(ctx, "C05", &c, false)
 	}
-	n := ctx.N(1500, 40000)
+	n := ctx.N(6000, 60000)
 	for i := 0; i < n && ctx.TimeLeft(); i++ {
 		c := c05Gen(ctx, i)
 		c.CfgInitialChecked = &other
